@@ -340,10 +340,12 @@ package actor
 //@     !nilptr(envMessage(c.envelop)) && unboxed(envMessage(c.envelop), "*vivid.OnKilled").Ref != nil &&
 //@     (typeis(unboxed(envMessage(c.envelop), "*vivid.OnKilled").Ref, "*actor.Ref") ==> !nilptr(unboxed(envMessage(c.envelop), "*vivid.OnKilled").Ref))
 //@ func (*Context).executeBehaviorWithRecovery
-//@   funcspec behavior maypanic preserves ctxwf(c), killedMsgOK(c), c.state, c.envelop, c.ref, c.zombie, c.restarting, c.children, c.watchers
+//@   funcspec behavior maypanic preserves ctxwf(c), killedMsgOK(c), watchersOK(c), schedok(c), zombieNoJobs(c), released1(c), c.state, c.envelop, c.ref, c.zombie, c.restarting, c.children, c.watchers, c.parent, c.system, c.mailbox, c.scheduler
 //@   requires ctxwf(c) && c.envelop != nil && behavior != nil && killedMsgOK(c)
 //@   modifies anyold, gmap(failures), ghost(calls_behavior)
 //@   ensures  c.state == old(c.state) && c.envelop == old(c.envelop) && c.ref == old(c.ref) && ctxwf(c)
+//@   ensures  c.zombie == old(c.zombie) && c.restarting == old(c.restarting) && c.children == old(c.children) && c.watchers == old(c.watchers) && c.parent == old(c.parent) && c.system == old(c.system)
+//@   ensures  killedMsgOK(c) && (old(watchersOK(c)) ==> watchersOK(c)) && (old(schedok(c)) ==> schedok(c)) && (old(schedok(c) && zombieNoJobs(c)) ==> zombieNoJobs(c)) && (old(released1(c)) ==> released1(c))
 //@   ensures  gcount(failures, c) <= old(gcount(failures, c)) + 1
 //@   ensures  forall d *Context :: d != c ==> gcount(failures, d) == old(gcount(failures, d))
 // a failure while the actor is already stopping does not trigger supervision:
@@ -360,18 +362,28 @@ package actor
 //@ func (*Context).doKill
 //@   funcspec behavior preserves ctxwf(c), watchersOK(c), c.zombie, c.state, c.restarting, c.ref, c.parent, c.system, c.options, c.mailbox, c.watchers, c.children, c.envelop, c.actor, c.behaviorStack, c.scheduler
 // completing the dying actor's pending Asks touches futures and the registration table only (assumed of the closers)
-//@   callspec removeFuturesByAgentPath preserves ctxwf(c), watchersOK(c), schedok(c), zombieNoJobs(c), released1(c), c.zombie, c.state, c.restarting, c.ref, c.parent, c.system, c.options, c.mailbox, c.watchers, c.children, c.envelop, c.actor, c.behaviorStack, c.scheduler, message.Poison, message.Reason
-//@   callspec removeFuturesByAgentPath ensures forall p string :: p in c.children ==> c.children[p] != nil && c.children[p] == old(c.children[p])
+//@   callspec removeFuturesByAgentPath preserves ctxwf(c), killedMsgOK(c), watchersOK(c), schedok(c), zombieNoJobs(c), released1(c), c.zombie, c.state, c.restarting, c.ref, c.parent, c.system, c.options, c.mailbox, c.watchers, c.children, c.envelop, c.actor, c.behaviorStack, c.scheduler, message.Poison, message.Reason
+// C04: EVERY kill - plain, restart, zombie - first completes the dying actor's pending Asks (with the actor-dead
+// error: removeFuturesByAgentPath's own contract), exactly once
+//@   ghostvar rfc int
+//@   callspec removeFuturesByAgentPath sets rfc = rfc + 1
+//@   callspec removeFuturesByAgentPath requires arg1 == c.ref.path && arg0 == c.system
+//@   callspec Kill requires rfc == 1
+//@   callspec recoverExec ensures schedok(c) && zombieNoJobs(c)
+//@   callspec removeFuturesByAgentPath ensures len(c.children) == old(len(c.children)) && forall p string :: (p in c.children <==> old(p in c.children))
+//@   callspec removeFuturesByAgentPath ensures forall p string :: p in c.children ==> c.children[p] != nil && (typeis(c.children[p], "*actor.Ref") ==> !nilptr(c.children[p])) && c.children[p] == old(c.children[p])
 //@   requires ctxwf(c) && message != nil && c.envelop != nil && behavior != nil
-//@   requires watchersOK(c) && schedok(c) && zombieNoJobs(c) && released1(c)
+//@   requires watchersOK(c) && schedok(c) && zombieNoJobs(c) && released1(c) && killedMsgOK(c)
 //@   requires c.system.futureAgents != nil && !held(c.system.futureLock) && regfut(c.system)
-//@   requires forall p string :: p in c.children ==> c.children[p] != nil
-//@   modifies c.children[*], c.state, c.envelop, c.actor, c.behaviorStack.behaviors, c.zombie, c.restarting, c.scheduler.jobKeys[*], anyold, gmap(told), gmap(toldn), gmap(tells), gmap(unregistered), gmap(unsuball), gmap(published), gmap(resumes), gmap(deleted), gmap(schedtried), gmap(scheduled), gmap(chclosed), gmap(piped), gmap(pipedn), ghost(calls_closer), ghost(calls_behavior)
-//@   ensures  gcount(toldn, kKill(!message.Poison)) == old(gcount(toldn, kKill(!message.Poison))) + old(len(c.children))
-//@   ensures  forall p string :: old(p in c.children) ==> gcount(told, old(c.children[p]), kKill(!message.Poison)) > old(gcount(told, old(c.children[p]), kKill(!message.Poison)))
+//@   requires forall p string :: p in c.children ==> c.children[p] != nil && (typeis(c.children[p], "*actor.Ref") ==> !nilptr(c.children[p]))
+//@   modifies c.children[*], c.state, c.envelop, c.actor, c.behaviorStack.behaviors, c.zombie, c.restarting, c.scheduler.jobKeys[*], anyold, gmap(told), gmap(toldn), gmap(tells), gmap(unregistered), gmap(unsuball), gmap(published), gmap(resumes), gmap(deleted), gmap(schedtried), gmap(scheduled), gmap(chclosed), gmap(piped), gmap(pipedn), gmap(failures), ghost(calls_closer), ghost(calls_behavior)
+//@   ensures  rfc == 1
+//@   ensures  gcount(toldn, kKill(!old(message.Poison))) == old(gcount(toldn, kKill(!message.Poison))) + old(len(c.children))
+//@   ensures  forall p string :: old(p in c.children) ==> gcount(told, old(c.children[p]), kKill(!old(message.Poison))) > old(gcount(told, c.children[p], kKill(!message.Poison)))
 //@   ensures  gcount(unregistered, c) <= old(gcount(unregistered, c)) + 1
 //@ loop (*Context).doKill#1
 //@   modifies nothing
+//@   invariant rfc == 1
 //@   invariant gcount(toldn, kKill(!message.Poison)) == old(gcount(toldn, kKill(!message.Poison))) + seencount()
 //@   invariant forall p string :: seen(p) ==> p in c.children && gcount(told, c.children[p], kKill(!message.Poison)) > old(gcount(told, c.children[p], kKill(!message.Poison)))
 //@   invariant forall r vivid.ActorRef, k mathint :: gcount(told, r, k) >= old(gcount(told, r, k))
@@ -670,7 +682,8 @@ package actor
 //@   ensures  fatwf(s)
 // the registry's futures are well-formed and nobody is inside their forwarder lock
 //@ pure regfut(s *System) bool = forall k any :: smhas(&s.actorContexts, k) && typeis(smval(&s.actorContexts, k), "*future.Future[vivid.Message]") ==>
-//@     !nilptr(smval(&s.actorContexts, k)) && future.futwf(unboxed(smval(&s.actorContexts, k), "*future.Future[vivid.Message]")) &&
+//@     !nilptr(smval(&s.actorContexts, k)) && allocated_old(unboxed(smval(&s.actorContexts, k), "*future.Future[vivid.Message]")) &&
+//@     future.futwf(unboxed(smval(&s.actorContexts, k), "*future.Future[vivid.Message]")) &&
 //@     !held(unboxed(smval(&s.actorContexts, k), "*future.Future[vivid.Message]").mu)
 // when an asking actor dies, every Ask it still waits for is completed with the given error (C04: "or with an
 // actor-dead error if the asking actor terminates first"); the table is read under its lock
